@@ -13,7 +13,11 @@ RULE = ("random rose trees (1-12 leaves quick, up to 40 thorough; unary nodes, p
         "child_edge_iter/child_nodes/child_edges/incident_edges/adjacent_nodes/sibling_nodes/sister_nodes; the first-hit searches "
         "Tree.find_node/find_nodes/find_node_with_label/find_node_with_taxon_label/find_node_for_taxon) x start node (Node methods on any node; Tree "
         "methods on the tree and on a Tree made of a spliced-out inner node) x filter (none, or a random set of accepted "
-        "ids answered with bools, with truthy/falsy non-bool values, or by a callable that is itself falsy; apply callbacks that are falsy callables) x node class "
+        "ids answered with bools, with truthy/falsy non-bool values, or by a callable that is itself falsy; a PARTIAL predicate that raises when "
+        "shown an item its iterator is not defined over (an inner node for a leaf iterator, a tip or the excluded seed for an internal-node iterator); "
+        "STATEFUL predicates (keep every second item shown / the first k); for every filtered call the sequence of arguments the filter was called with "
+        "is recorded and judged: exactly the items of the unfiltered defining order, each once, in that order (find_node: up to its first hit; age order up to "
+        "ties), and compared with the model's own call sequence (= its output under the all-accepting filter); apply callbacks that are falsy callables) x node class "
         "(Node, or subclasses whose instances and edges are falsy through __bool__ or __len__) x STATE (about 40% of the cases: taxa on the "
         "tips all distinct / some tips without a taxon / two tips sharing one taxon / taxa on inner nodes / none, two taxa sharing a label, node labels, "
         "edge lengths, and a preparation run on the tree before the observation: nothing; encode_bipartitions() (stored encoding); "
@@ -46,7 +50,9 @@ MODELLED_NOT_VERIFIED = [
     "frame/independence theorems; the other generators are modelled as complete runs only, their abandoned prefixes and "
     "interleavings are judged by the oracle on the Python side; a tree mutated by the CALLER during iteration is outside "
     "the statement; a filter is a set of "
-    "accepted node ids - what the callable returns for them (bool or any truthy/falsy object) is varied on the Python side only",
+    "accepted node ids - what the callable returns for them (bool or any truthy/falsy object) is varied on the Python side only; "
+    "a stateful predicate is handed to the model as the set of ids it accepts when shown the defining order once (sound because the "
+    "call sequence itself is judged by the oracle and compared with the machine's)",
     "C15: age order: the model sorts stably (as list.sort does); the statement asks only for monotone age, so model and "
     "implementation are compared up to the order inside groups of equal age",
     "C15: find_node_with_taxon_label compares labels: the harness translates the label asked for into the set of taxon indices "
@@ -107,7 +113,8 @@ UNFILTERED = {"apply", "len", "leafnodes", "internalnodes", "leafedges", "intern
 NEEDS_STATE = {"findlabel", "findtaxlabel", "findtaxon"}    # need labels / taxa on the nodes
 USES_EXCL = {"preint", "postint", "preintedge", "postintedge", "internalnodes", "internaledges"}
 NODECLS = ["plain", "nobool", "nolen"]
-FSTYLES = ["bool", "mixed", "falsyfn"]
+FSTYLES = ["bool", "mixed", "falsyfn", "partial", "alternate", "limit"]
+STATEFUL = {"alternate", "limit"}    # the answer depends on how often the predicate has been called, not on the node
 
 TRUTHY = [True, 1, "x", [0], (None,), 2.5, {"a": 1}, -1]
 FALSY = [False, 0, None, "", [], (), 0.0, {}]
@@ -354,19 +361,54 @@ class FalsyFn(object):
         return False
 
 
-def make_filter(acc, fstyle, salt, key):
-    """the filter callable for a set of accepted ids. `key(obj)` -> id. None when no filter"""
+class WrongKind(Exception):
+    """raised by a `partial` predicate: it only makes sense on the items its iterator is defined over (a leaf predicate
+    on an inner node - think of `nd.taxon.label.startswith(...)` - an internal-node predicate on a tip, ...)"""
+
+
+def stateful_answer(fstyle, salt, n):
+    """what a stateful predicate answers on its n-th call (n = 0, 1, ...): `alternate` keeps every second item it is
+    shown, `limit` the first few"""
+    if fstyle == "alternate":
+        return n % 2 == salt % 2
+    return n < salt % 4
+
+
+def make_filter(acc, fstyle, salt, key, log=None, cand=None):
+    """the filter callable for a set of accepted ids. `key(obj)` -> id. None when no filter.
+    Every call is recorded in `log` (the ids, in call order).  Families: bool / mixed (truthy and falsy non-bools) /
+    falsyfn (the callable itself is falsy) answer by the id; partial answers by the id but raises WrongKind on an item
+    outside `cand` (the items the iterator is defined over); alternate / limit are stateful: they answer by the number
+    of calls so far"""
     if acc is None:
         return None
+    log = [] if log is None else log
     if fstyle == "mixed":
         def f(x):
             i = key(x)
+            log.append(i)
             table = TRUTHY if i in acc else FALSY
             # an object the case does not know (the code handed the filter something else than a node / an edge of
             # this tree) is answered with a falsy value - the oracle then sees what was yielded; never a harness crash
             return table[((i if isinstance(i, int) else 0) + salt) % len(table)]
         return f
-    g = lambda x: key(x) in acc
+    if fstyle in STATEFUL:
+        def h(x):
+            log.append(key(x))
+            return stateful_answer(fstyle, salt, len(log) - 1)
+        return h
+    if fstyle == "partial":
+        def q(x):
+            i = key(x)
+            log.append(i)
+            if cand is not None and i not in cand:
+                raise WrongKind(i)
+            return i in acc
+        return q
+
+    def g(x):
+        log.append(key(x))
+        return key(x) in acc
     return FalsyFn(g) if fstyle == "falsyfn" else g
 
 
@@ -536,13 +578,15 @@ def drain(it, cap):
     return out
 
 
-def impl(c, w, seed, obj, cap=None):
+def impl(c, w, seed, obj, cap=None, rec=None):
     """call the entry point; obj is the Tree (via tree/subtree) or None (via node). returns list of ids/events.
     cap: abandon the generator after cap+1 items (default: far more than the tree has nodes)"""
     kind, excl = c["kind"], c["excl"]
     acc = None if c["acc"] is None else set(c["acc"])
-    nf = make_filter(acc, c["fstyle"], c["fsalt"], w.nid)
-    ef = make_filter(acc, c["fstyle"], c["fsalt"], w.eid)
+    rec = {} if rec is None else rec     # rec["calls"]: what the filter was called with, in order; rec["cand"]: see make_filter
+    log = rec.setdefault("calls", [])
+    nf = make_filter(acc, c["fstyle"], c["fsalt"], w.nid, log, rec.get("cand"))
+    ef = make_filter(acc, c["fstyle"], c["fsalt"], w.eid, log, rec.get("cand"))
     cap = 3 * w.n + 8 if cap is None else cap
     N = lambda it: [w.nid(x) for x in drain(it, cap)]
     E = lambda it: [w.eid(x) for x in drain(it, cap)]
@@ -756,8 +800,23 @@ def one_case(ctx, dendropy, c, pending):
     elif via == "subtree":
         obj = w.tree if start == 0 else dendropy.Tree(seed_node=seed)   # splices the node out of its parent
     ages = [Fraction(a) for a in c["ages"]]
+    if kind in AGE and c["fstyle"] in STATEFUL:
+        c["fstyle"] = "bool"        # ties in age leave the call order open: no stateful predicates there
     want = oracle(c, w, seed)
-    want_nofilter = oracle(dict(c, acc=None), w, seed)   # only used to recognise the documented falsy-filter defect
+    want_nofilter = oracle(dict(c, acc=None), w, seed)   # the items the iterator is defined over = what the filter must be shown, in this order
+    has_filter = c["acc"] is not None and kind not in UNFILTERED
+    # the items the filter must be shown: the unfiltered defining order (find_node: the pre-order it searches)
+    universe = oracle(dict(c, kind="findnodes", acc=None), w, seed) if kind == "findnode" else want_nofilter
+    if has_filter and c["fstyle"] in STATEFUL and isinstance(universe, list):
+        # a stateful predicate: shown the items of the defining order one by one, each once, it keeps these
+        kept = [x for n_, x in enumerate(universe) if stateful_answer(c["fstyle"], c["fsalt"], n_)]
+        if kind == "findnode":
+            want = kept[:1] if kept else ["-"]
+        elif kind in FIND and kind != "findnodes":
+            pass
+        else:
+            want = kept
+    rec = {"calls": [], "cand": set(universe) if isinstance(universe, list) else None}
     want_prior = [oracle(dict(c, kind=pk, acc=None, alt=False), w, seed) for pk, take in c["prior"]]
     where = "%s via %s from node %d (filter %s/%s, node class %s%s)" % (
         kind, via, start, c["acc"], c["fstyle"], c["nodecls"],
@@ -776,7 +835,14 @@ def one_case(ctx, dendropy, c, pending):
                         raise
                     exc = e
                 judge_prior(ctx, c, w, pk, take, want_p, got_p, exc, where)
-            got = impl(c, w, seed, obj)
+            got = impl(c, w, seed, obj, rec=rec)
+    except WrongKind as e:
+        ctx.count("filter_" + c["fstyle"])
+        ctx.case([c["tree"], kind, start, via, c["excl"], c["acc"], c["fstyle"], c["nodecls"], c["prep"]], True, sample=c, kind=kind)
+        ctx.fail("filter-called-on-wrong-item", "%s: the filter was called with %s, which is not among the items this iterator is "
+                 "defined over [%s] (calls so far: [%s]); a predicate that only makes sense on those items raises" % (
+                     where, e.args[0], fmt(universe), fmt(rec["calls"])), c)
+        return
     except common.Timeout:
         ctx.fail("hang", "%s: this sequence of traversals does not terminate within 10 s" % where, c)
         return
@@ -828,7 +894,27 @@ def one_case(ctx, dendropy, c, pending):
         canon = fmt(got)
     if canon is None:
         return
+    calls = None
+    if has_filter and refused is None and isinstance(universe, list) and isinstance(want, list):
+        # the arguments the filter was called with: exactly the items the iterator is defined over, each once, in the
+        # defining order (find_node stops at its first hit; age order up to ties)
+        calls = rec["calls"]
+        want_calls = universe
+        if kind == "findnode":
+            hit = want[0] if want and want[0] != "-" else None
+            want_calls = universe[:universe.index(hit) + 1] if hit in universe else universe
+        if kind in AGE:
+            ok_calls = sorted(map(str, calls)) == sorted(map(str, want_calls)) and monotone_age(calls, ages, desc)
+        else:
+            ok_calls = fmt(calls) == fmt(want_calls)
+        ctx.count("filter_call_sequences_judged")
+        if not ok_calls:
+            ctx.fail("filter-calls", "%s: the filter was called with [%s]; the items this iterator is defined over, in its order, are "
+                     "[%s] (each must be shown to the filter exactly once, nothing else)" % (where, fmt(calls), fmt(want_calls)), c)
     acc = c["acc"]
+    if has_filter and c["fstyle"] in STATEFUL and isinstance(want, list):
+        acc = [i for i in want if isinstance(i, int)] if kind != "findnode" else (
+            [i for n_, i in enumerate(universe) if stateful_answer(c["fstyle"], c["fsalt"], n_)])
     filt = "*" if (acc is None or kind in UNFILTERED) else ("-" if not acc else ",".join(str(i) for i in sorted(acc)))
     line = "iter %s %d %d %d %d %s %s %s" % (
         kind, start, 1 if (via == "subtree" and start != 0) else 0, 1 if c["excl"] else 0, 1 if c["incl"] else 0, filt,
@@ -836,6 +922,12 @@ def one_case(ctx, dendropy, c, pending):
             "%d:%s" % (c["start2"], c["sched"] or "0") if kind == "levelsched" else (
                 "%s:%d:%s" % (c["gk"], c["start2"], c["sched"] or "0") if kind == "gensched" else find_field(c, w))), " ".join(w.toks))
     pending.append((line, c, canon))
+    if calls is not None and kind != "findnode":
+        # the machine shows its filter every item it pops that reaches the test: its call sequence is its own output under
+        # the filter that accepts everything
+        toks_ = line.split(" ")
+        toks_[6] = "*"
+        pending.append((" ".join(toks_), c, age_canon(calls, ages) if kind in AGE else fmt(calls)))
     if kind in ("adjacent", "siblings"):   # the pointer-level reading (…_pointer_refinement) must say the same
         pending.append((line.replace("iter %s " % kind, "iter %sptr " % kind, 1), c, canon))
     if kind == "apply":   # the pointer-level loop over the parent array (apply_pointer_refinement) must say the same
@@ -979,7 +1071,8 @@ def make_case(rng, toks, n, kind, start=None, via=None, max_age=6):
         extra = {"start2": rng.randrange(n), "sched": "".join(rng.choice("01") for _ in range(rng.randint(1, 2 * n + 3))),
                  "gk": rng.choice(["pl", "lp", "pp", "ll"])}
     return dict(extra, **{"prior": prior, "tree": toks, "kind": kind, "start": start, "via": via, "excl": rng.random() < 0.5, "incl": rng.random() < 0.5,
-            "acc": acc, "fstyle": "bool" if r < 0.4 else ("mixed" if r < 0.85 else "falsyfn"), "fsalt": rng.randrange(8),
+            "acc": acc, "fstyle": ("bool" if r < 0.25 else "mixed" if r < 0.55 else "falsyfn" if r < 0.65 else "partial" if r < 0.8
+                       else "alternate" if r < 0.9 else "limit"), "fsalt": rng.randrange(8),
             "nodecls": "plain" if rng.random() < 0.6 else rng.choice(["nobool", "nolen"]), "alt": rng.random() < 0.3,
             "ages": [str(Fraction(rng.randint(0, max_age), 2)) for _ in range(n)]})
 
